@@ -328,6 +328,7 @@ def fold_serial_rule(m: Model):
         br, other = Br('b'), Br('other')
         br.has_map = lambda mp, populated=populated: ('world' in mp and mp['world'] in populated) if set(mp) == {'world'} else False
         br.new_world = lambda: 9
+        br.worlds = frozenset(populated | unserial)
         rule = Cache(__srcclass__=(m, ClassRef(RULES, 'access.Serial')))     # helper methods the producer may be split into resolve through the class
         rule['UnserialWorlds'] = {br: set(unserial)}
         rule['MaxWorlds'] = Obj('MaxWorlds', is_exceeded=lambda b, exceeded=exceeded: exceeded, is_reached=lambda b, exceeded=exceeded: exceeded)
@@ -566,16 +567,20 @@ def fold_fair_gate(m: Model, lgs):
                 return self.name
         for label, spec in (('one node at w0 seeing w1,w2,w3; one node at w3 seeing w4', (('n1', 0, (1, 2, 3)), ('n2', 3, (4,)))),
                             ('two nodes at w0 seeing w1,w2', (('n1', 0, (1, 2)), ('n2', 0, (1, 2)))),
-                            ('one node at w0 seeing w1,w2; one node at w1 seeing nothing', (('n1', 0, (1, 2)), ('n2', 1, ())))):
+                            ('one node at w0 seeing w1,w2; one node at w1 seeing nothing', (('n1', 0, (1, 2)), ('n2', 1, ()))),
+                            ('two nodes at w0 seeing w1,w2,w3', (('n1', 0, (1, 2, 3)), ('n2', 0, (1, 2, 3))))):
             nodes = [N(n, w) for n, w, _ in spec]
             access = {}
             for n, w, seen in spec:
                 access.setdefault(w, set()).update(seen)
             pairs = [(nd, w2) for nd in nodes for w2 in sorted(access.get(nd.world, ()))]
-            for k in range(len(pairs) + 1):
-                for applied in itertools.combinations(pairs, k):
+            # `present`: pairs whose result node is already on the branch (the producer skips them without recording anything)
+            presents = [()] + [(p_,) for p_ in pairs] + list(itertools.combinations(pairs, 2))
+            for k, present in itertools.product(range(len(pairs) + 1), presents):
+                for applied in itertools.combinations([p_ for p_ in pairs if p_ not in present], k):
                     br = Br('b')
-                    br.has_map = lambda mp: False
+                    on_branch = {('sdw', nd.s.lhs, True, w2) for nd, w2 in present}
+                    br.has_map = lambda mp, on_branch=on_branch: mp in on_branch
                     br.find = lambda mp: ('found', mp)
                     counts = CountC()
                     counts[br] = collections.defaultdict(int)
@@ -595,11 +600,11 @@ def fold_fair_gate(m: Model, lgs):
                         err = e.text
                     except (TypeError, KeyError, AttributeError, ValueError) as e:
                         err = f'{type(e).__name__}: {e}'
-                    pending = [p for p in pairs if p not in applied]
+                    pending = [p for p in pairs if p not in applied and p not in present]
                     ok = err is None and (bool(targets) or not pending)
                     offered = sorted({(str(t.get('nodes', ('?',))[0]), t.get('world')) for t in targets if isinstance(t, dict)})
                     ok = ok and all((str(nd), w) in {(str(a), b) for a, b in pending} for nd, w in offered)
-                    out.append((ok, f'{oqual}: {label}; applied {[(str(a), b) for a, b in applied]}',
+                    out.append((ok, f'{oqual}: {label}; applied {[(str(a), b) for a, b in applied]}' + (f'; result already on the branch for {[(str(a), b) for a, b in present]}' if present else ''),
                                 f'counts {dict((str(a), c) for a, c in counts[br].items())}: the rule offers {offered or "nothing"}' + (f' (error {err})' if err else '')
                                 + f' while {[(str(a), b) for a, b in pending]} are still to be applied -- a postponed node is never taken up again, the open branch is not saturated',
                                 f'{m.relfile(omod)} {oqual}'))
